@@ -449,7 +449,7 @@ func (p *Prog) isFresh(fx *Fx, o *Term) *Term {
 	if isPre(o) {
 		return False()
 	}
-	return UF("fresh!", BoolS, o)
+	return IntOp(">", o, Sym("W!0", IntS))
 }
 
 // constTableOf returns the constant table a pointer object denotes, if any.
